@@ -26,6 +26,12 @@ def three_same(case, detail):
 
 
 RULES = [
+    ("C01-F9", "the same expression declared under two names: with optimisation CSE removes the second producer and the "
+               "second name gets no anchor, so its value cannot be observed (same root cause as C10-F1 / C20-F1)",
+     lambda c, d: c["family"] == "S9" and c.get("tag") in ("identical", "identical3")),
+    ("C01-F10", "anonymous typed constants of the same type as a wire-merged input are dropped from the merge: "
+                "(\"signal-A\", 2) + (\"signal-A\", 3) + a yields a (same root cause as C11-F3)",
+     lambda c, d: c["family"] == "S9" and c.get("tag") == "fold-merge"),
     ("C01-F8", "two results that share one input, each with its own same-typed constant operand (k1 * a, k2 * a with k1, k2 "
                "on one signal type): the shared input's wire joins both constants into one network, so each result "
                "sees k1 + k2", lambda c, d: c["family"] == "S8"),
